@@ -9,6 +9,8 @@ names = sorted(q for q, f in p.functions.items() if f.parent is None)
 names = sorted(set(names) | {f"{m.name}.{k}" for m in p.modules.values() for k in m.assigns})
 # ... and class level names: a literal moved to a NEW class attribute likewise (inline.normalise_class_constants)
 names = sorted(set(names) | {f"{c.qualname}.{k}" for c in p.classes.values() for k in list(c.attrs) + list(c.annotations)})
+# ... and the classes themselves: a record class the reviewed tree did not have is read as the tuple it stands for (inline.record_classes_of)
+names = sorted(set(names) | set(p.classes))
 (Path(__file__).resolve().parent.parent / 'emsverif' / 'reference_functions.json').write_text(json.dumps(names, indent=0) + '\n')
 print(len(names), 'functions recorded')
 
